@@ -8,7 +8,7 @@ import numpy as np
 warnings.simplefilter("ignore")
 kafe2 = imp("kafe2")
 XYFit, IndexedFit, HistFit, UnbinnedFit, CustomFit, HistContainer = kafe2.XYFit, kafe2.IndexedFit, kafe2.HistFit, kafe2.UnbinnedFit, kafe2.CustomFit, kafe2.HistContainer
-R = Runner("C08", args, scope="5 fit types x 2 back ends x {free, one fixed, one limited} x all sequences of <= 2 (quick) / <= 3 (thorough) queries out of 11 (cov, cor, hessian, asymmetric errors, profile, contour, "
+R = Runner("C08", args, scope="5 fit types x 2 back ends x {free, one fixed, one limited} x all sequences of <= 2 (quick) / <= 3 (thorough) queries out of 12 (cov, cor, hessian, asymmetric errors, profile, contour, "
                               "error band, report, result dict, to_file, repeated read of values and cost)",
            rule="history enumeration; after each query: values / cost / errors / did_fit vs. the state right after do_fit, minimizer vs. graph values, repeat of the query")
 R.shards = 14
@@ -58,6 +58,12 @@ def q_profile(f):
     return np.asarray(xy)
 
 
+def q_profile_cl(f):
+    """the variant plot_profile uses: bounds from a confidence level, arrows on (the bounds are searched with the live minimizer)"""
+    xy, _ = f._fitter.profile([n for n in f.parameter_names if n not in f._fitter.fixed_parameters][0], size=7, cl=0.9, arrows=True)
+    return np.asarray(xy)
+
+
 def q_contour(f):
     free = [n for n in f.parameter_names if n not in f._fitter.fixed_parameters]
     c = f._fitter.contour(free[0], free[1], sigma=1.0)
@@ -85,7 +91,7 @@ def q_to_file(f):
 
 QUERIES = {
     "cov": lambda f: np.asarray(f.parameter_cov_mat), "cor": lambda f: np.asarray(f.parameter_cor_mat), "hessian": lambda f: np.asarray(f._fitter.minimizer.hessian),
-    "asym": lambda f: np.asarray(f.asymmetric_parameter_errors), "profile": q_profile, "contour": q_contour,
+    "asym": lambda f: np.asarray(f.asymmetric_parameter_errors), "profile": q_profile, "profile_cl": q_profile_cl, "contour": q_contour,
     "band": lambda f: np.asarray(f.error_band()) if hasattr(f, "error_band") else None,
     "report": q_report, "result_dict": lambda f: {k: (np.asarray(v).tolist() if isinstance(v, np.ndarray) else v) for k, v in f.get_result_dict().items()},
     "to_file": q_to_file, "read": lambda f: (np.asarray(f.parameter_values).tolist(), float(f.cost_function_value)),
@@ -100,13 +106,13 @@ def gen(tier, seed):
             for setup in ("free", "fixed", "limited", "frozen-after-fit"):
                 if kind in ("hist", "unbinned") and setup in ("fixed", "frozen-after-fit"):
                     continue          # two parameters only: contour needs two free ones
-                seqs = [(q,) for q in names] + [(p, q) for p in ("asym", "profile", "contour", "cov", "to_file", "band") for q in names]
+                seqs = [(q,) for q in names] + [(p, q) for p in ("asym", "profile", "profile_cl", "contour", "cov", "to_file", "band") for q in names]
                 if depth == 3:
                     rng = np.random.RandomState(seed + hash((kind, backend, setup)) % 1000)
                     seqs += [tuple(rng.choice(names, 3)) for _ in range(25)]
                 if tier == "quick":
                     pairs_here = kind in ("xy", "custom") and setup in ("free", "fixed", "frozen-after-fit")
-                    seqs = [s for s in seqs if len(s) == 1 or (pairs_here and s[0] in ("asym", "profile", "contour"))]
+                    seqs = [s for s in seqs if len(s) == 1 or (pairs_here and s[0] in ("asym", "profile", "profile_cl", "contour"))]
                 for s in seqs:
                     if "band" in s and kind != "xy":
                         continue
@@ -163,9 +169,9 @@ def history(inp):
             a2 = QUERIES[q](f)
         except Exception as e2:
             return {"got": f"{q} (second time): {type(e2).__name__}: {e2}"[:300], "expected": "an answer", "witness_class": f"{tag}:{q}:raises-second-time"}
-        if inp["setup"] == "frozen-after-fit" and q in ("profile", "contour", "asym", "report", "to_file", "result_dict", "cov", "cor", "hessian", "band"):
+        if inp["setup"] == "frozen-after-fit" and q in ("profile", "profile_cl", "contour", "asym", "report", "to_file", "result_dict", "cov", "cor", "hessian", "band"):
             continue        # the first such query re-estimates the uncertainties for the new configuration (stale until then: C03's subject), so the second answer may differ
-        if not same_answer(a1, a2, 2e-2 if q in ("profile", "contour") else 2e-3):       # scan grids are placed from the (re-estimated) uncertainties: compared to 2 %
+        if not same_answer(a1, a2, 2e-2 if q in ("profile", "profile_cl", "contour") else 2e-3):       # scan grids are placed from the (re-estimated) uncertainties: compared to 2 %
             return {"got": str(a2)[:300], "expected": str(a1)[:300], "witness_class": f"{tag}:{q}:different-answer-second-time"}
     R.cover(inp["kind"] + ":" + inp["backend"])
 
